@@ -116,15 +116,15 @@ R_RANGE_INC: "]"
 _KW_TO.4: /to\b/
 _KW_IN.4: /in\b/
 _KW_AS.4: /as\b/
-_KW_OR.4: /or\b/
+_KW_OR.4: /or(?![\w\/])/
 _KW_WITHIN.4: /within\b/
-_KW_NO.4: /no\b/
-_KW_SOME.4: /some\b/
-_KW_REQUIRES.4: /requires\b/
-_KW_CAUSES.4: /causes\b/
-_KW_FORBIDS.4: /forbids\b/
-_KW_AFTER.4: /after\b/
-_KW_UNTIL.4: /until\b/
+_KW_NO.4: /no(?![\w\/])/
+_KW_SOME.4: /some(?![\w\/])/
+_KW_REQUIRES.4: /requires(?![\w\/])/
+_KW_CAUSES.4: /causes(?![\w\/])/
+_KW_FORBIDS.4: /forbids(?![\w\/])/
+_KW_AFTER.4: /after(?![\w\/])/
+_KW_UNTIL.4: /until(?![\w\/])/
 _KW_GLOBALLY.4: /globally\b/
 
 CHANNEL_NAME: /[\/~]?[a-zA-Z][0-9a-zA-Z_]*(\/[a-zA-Z][0-9a-zA-Z_]*)*/
@@ -324,15 +324,15 @@ R_RANGE_INC: "]"
 _KW_TO.4: /to\b/
 _KW_IN.4: /in\b/
 _KW_AS.4: /as\b/
-_KW_OR.4: /or\b/
+_KW_OR.4: /or(?![\w\/])/
 _KW_WITHIN.4: /within\b/
-_KW_NO.4: /no\b/
-_KW_SOME.4: /some\b/
-_KW_REQUIRES.4: /requires\b/
-_KW_CAUSES.4: /causes\b/
-_KW_FORBIDS.4: /forbids\b/
-_KW_AFTER.4: /after\b/
-_KW_UNTIL.4: /until\b/
+_KW_NO.4: /no(?![\w\/])/
+_KW_SOME.4: /some(?![\w\/])/
+_KW_REQUIRES.4: /requires(?![\w\/])/
+_KW_CAUSES.4: /causes(?![\w\/])/
+_KW_FORBIDS.4: /forbids(?![\w\/])/
+_KW_AFTER.4: /after(?![\w\/])/
+_KW_UNTIL.4: /until(?![\w\/])/
 _KW_GLOBALLY.4: /globally\b/
 
 CHANNEL_NAME: /[\/~]?[a-zA-Z][0-9a-zA-Z_]*(\/[a-zA-Z][0-9a-zA-Z_]*)*/
